@@ -429,6 +429,8 @@ def run(tier, seed):
     rep.notes["model_mismatches"] = mism
     rep.notes["histories_vs_AsyncExitStack"] = len(hist)
     rep.notes["stacks_vs_nested_with"] = len(stacks)
+    import kwprobe
+    kwprobe.probe(rep, "callback", "exitstack:kwargs")
     if not proofs_ok:
         rep.violation("proof-broken", {"broken": rep.notes.get("broken_file", "?"), "log": rep.notes.get("build_log_tail", "")[-1500:]}, no_input=True)
     return rep.finish()
